@@ -397,6 +397,7 @@ func run(id string, cfg config, tier string, seed int64, work string, replayPath
 		merged.Evaluations += st.Evaluations
 		merged.NonTrivial += st.NonTrivial
 		merged.Vacuous += st.Vacuous
+		merged.Enumerated += st.Enumerated
 		for k, v := range st.Classes {
 			merged.Classes[k] += v
 		}
@@ -503,7 +504,7 @@ func run(id string, cfg config, tier string, seed int64, work string, replayPath
 	}
 	cov := map[string]interface{}{
 		"evaluations":               merged.Evaluations,
-		"distinct_nontrivial":       len(distinct),
+		"distinct_nontrivial":       int64(len(distinct)) + merged.Enumerated,
 		"nontrivial_with_duplicates": merged.NonTrivial,
 		"vacuous":                   merged.Vacuous,
 		"rule":                      strings.Join(ruleParts, " || "),
@@ -548,7 +549,7 @@ func run(id string, cfg config, tier string, seed int64, work string, replayPath
 	for _, k := range core.SortedKeys(merged.Known) {
 		fmt.Printf("  cases attributed to %s during the search: %d (e.g. %s)\n", k, merged.Known[k], oneLine(merged.KnownMsg[k]))
 	}
-	fmt.Printf("%s %s seed=%d: %d evaluations, %d distinct non-trivial, %d violations, %.1fs\n", id, tier, seed, merged.Evaluations, len(distinct), violations, time.Since(start).Seconds())
+	fmt.Printf("%s %s seed=%d: %d evaluations, %d distinct non-trivial, %d violations, %.1fs\n", id, tier, seed, merged.Evaluations, int64(len(distinct))+merged.Enumerated, violations, time.Since(start).Seconds())
 	if violations > 0 {
 		for _, l := range violationLines {
 			fmt.Println(l)
